@@ -9,7 +9,7 @@ EXTENDS Naturals, Sequences, FiniteSets, TLC, Json
 
 CONSTANTS Reread      \* FALSE: as coded (loads(dumps())).  TRUE: the mutant that goes back to the stream
 
-Arm    == {"loader", "loader_json", "hook", "context", "context_t"}
+Arm    == {"loader", "loader_json", "hook", "context", "context_t", "hook_after_context"}
 Kind   == {"bytes", "seekable", "nonseekable"}
 Sev    == 0..5
 \* families of the analysed pickle A: its verdict, or "crash" when parsing/analysis raises
